@@ -31,11 +31,11 @@ Definition simplify_code (vr : variant) (g : sargs) (N : list elemQ) (trace : li
       else if negb (match x_trace x with [] => true | _ => false end) then 4
       else if net_eqb (x_net x) out then 0 else 1
   end.
-(* oracle contracts met on this case: (subsets, in_series/in_parallel, no ground inside) *)
-Definition simplify_flags (vr : variant) (g : sargs) (N : list elemQ) (trace : list stage) : bool * bool * bool :=
+(* oracle contracts met on this case: (subsets, in_series/in_parallel, no ground inside, chains on node names) *)
+Definition simplify_flags (vr : variant) (g : sargs) (N : list elemQ) (trace : list stage) : bool * bool * bool * bool :=
   match simplifyQ vr g N trace with
-  | Err => (true, true, true)
-  | Ok x => (f_subsets (x_flags x), f_contract (x_flags x), f_ground (x_flags x))
+  | Err => (true, true, true, true)
+  | Ok x => (f_subsets (x_flags x), f_contract (x_flags x), f_ground (x_flags x), f_raw (x_flags x))
   end.
 
 Definition s_modelQ (s : Qc) := @s_model QcF qc_eqb s.
